@@ -114,7 +114,7 @@ class Carrier(np.ndarray):
                 target = get_form(_name(form))
                 arr = self.form(self, target)
                 new = self._clone_meta(np.asarray(arr, dtype=object).view(type(self)))
-                new.form = target
+                new.__dict__["form"] = target
             else:
                 raise NotImplementedError(f"Carrier.copy(form={form}) from {self.form}")
         if frame is not None and _name(frame) != _name(self.frame):
@@ -136,6 +136,34 @@ class Carrier(np.ndarray):
             if form is not None:
                 return new.copy(form=form)
         return new
+
+    # ---- frame / form: reading is plain; *assigning* converts the coordinates in place, as StateVector's setters do (the
+    # constructors and copy() above write self.__dict__ directly)
+    @property
+    def frame(self):
+        return self.__dict__.get("frame")
+
+    @frame.setter
+    def frame(self, new):
+        cur = self.__dict__.get("frame")
+        if cur is not None and new is not None and _name(cur) != _name(new) and hasattr(cur, "transform"):
+            conv = self.copy(frame=new)
+            np.ndarray.__setitem__(self, slice(None), np.asarray(conv, dtype=object))
+            new = conv.__dict__["frame"]
+        self.__dict__["frame"] = new
+
+    @property
+    def form(self):
+        return self.__dict__.get("form")
+
+    @form.setter
+    def form(self, new):
+        cur = self.__dict__.get("form")
+        if cur is not None and new is not None and _name(cur) != _name(new) and hasattr(cur, "steps"):
+            conv = self.copy(form=new)
+            np.ndarray.__setitem__(self, slice(None), np.asarray(conv, dtype=object))
+            new = conv.__dict__["form"]
+        self.__dict__["form"] = new
 
     def __getattr__(self, name):
         if name.startswith("__") or name in Carrier._ATTRS:
